@@ -182,6 +182,17 @@ func render(e ast.Expr) string {
 		return render(x.Fun) + "(" + strings.Join(as, ", ") + ")"
 	case *ast.UnaryExpr:
 		return x.Op.String() + render(x.X)
+	case *ast.ArrayType:
+		if x.Len == nil {
+			return "[]" + render(x.Elt)
+		}
+		return "[" + render(x.Len) + "]" + render(x.Elt)
+	case *ast.MapType:
+		return "map[" + render(x.Key) + "]" + render(x.Value)
+	case *ast.InterfaceType:
+		return "interface{}"
+	case *ast.Ellipsis:
+		return "..."
 	case *ast.BinaryExpr:
 		return render(x.X) + " " + x.Op.String() + " " + render(x.Y)
 	}
@@ -441,7 +452,9 @@ func (g *genInterp) lenOf(v Val, e ast.Expr) *T {
 	case GenStr:
 		return x.Bytes
 	}
-	g.fail("len(%s) not understood (%T)", render(e), v)
+	if !g.pc.isFalse() {
+		g.fail("len(%s) not understood (%T)", render(e), v)
+	}
 	return g.fresh("len", SInt)
 }
 
@@ -477,7 +490,9 @@ func (g *genInterp) call(x *ast.CallExpr) Val {
 		s := g.eval(x.Args[1])
 		gs, ok := s.(GenStr)
 		if !ok {
-			g.fail("regexp.MatchString on %T", s)
+			if !g.pc.isFalse() {
+				g.fail("regexp.MatchString on %T", s)
+			}
 			return GenTuple{g.fresh("matched", SBool), GenErr{NonNil: g.fresh("reerr", SBool)}}
 		}
 		return GenTuple{gs.Matched, GenErr{NonNil: tFalse}}
@@ -654,13 +669,14 @@ func (g *genInterp) stmt(s ast.Stmt) {
 		over := g.eval(x.X)
 		ln := g.lenOf(over, x.X)
 		save := g.pc
+		// generic iteration: the body is given its meaning for one arbitrary
+		// element that exists (0 <= idx < len is a standing assumption, not part
+		// of the path condition), so posts are proved per element
+		_ = ln
 		if x.Key != nil {
 			idx := g.fresh("idx", SInt)
 			g.sig.Vars[render(x.Key)] = idx
 			g.loops = append(g.loops, loopVar{name: render(x.Key), over: render(x.X)})
-			g.pc = mkAnd(save, mkCmp(">=", idx, mkInt(0)), mkCmp("<", idx, ln))
-		} else {
-			g.pc = mkAnd(save, mkCmp(">", ln, mkInt(0)))
 		}
 		if x.Value != nil {
 			g.fail("range with value variable not understood")
@@ -923,6 +939,39 @@ func (c *EvalCtx) stage2Builtin(n *Node) (Val, bool) {
 			})
 		}
 		return mkBool(found), true
+	case "all_branches_failed":
+		// all_branches_failed(em, n): the first n variables the fragment declares
+		// with a named type are the branch values; each one's Unmarshal failed
+		fr := prepareFragment(c.emittedText(c.eval(n.Kids[0])))
+		cnt, _ := c.evalTerm(n.Kids[1]).intVal()
+		var names []string
+		for _, st := range fr.Body {
+			ds, ok := st.(*ast.DeclStmt)
+			if !ok {
+				continue
+			}
+			gd, ok := ds.Decl.(*ast.GenDecl)
+			if !ok {
+				continue
+			}
+			for _, sp := range gd.Specs {
+				if vs, ok := sp.(*ast.ValueSpec); ok && vs.Type != nil {
+					if _, isIdent := vs.Type.(*ast.Ident); isIdent {
+						for _, nm := range vs.Names {
+							names = append(names, nm.Name)
+						}
+					}
+				}
+			}
+		}
+		if int64(len(names)) != cnt {
+			return tFalse, true
+		}
+		var cs []*T
+		for _, nm := range names {
+			cs = append(cs, mkVar("fail!"+nm, SBool))
+		}
+		return mkAnd(cs...), true
 	case "branch_failed":
 		// branch_failed(fieldName, i): the i-th anyOf branch unmarshaler failed
 		t := c.eval(n.Kids[0]).(Text)
